@@ -432,7 +432,7 @@ def r3_max_prio(F, res):
     rid = res.rule("C05-R3", "max_prior_for_term[t] is the maximum production priority shifting t", floor=1)
     f = F.one(r"^rustemo_compiler::table::LRState::<'g>::group_per_next_symbol$")
     found = False
-    for g in F.closures_of(f):
+    for g in list(F.closures_of(f)) + [f]:
         for b, t in g.calls():
             n = callee(t)
             if n.startswith("core::cmp::max") or n.startswith("core::cmp::min") or "::cmp::Ord::max" in n \
